@@ -2248,7 +2248,31 @@ int EGLPNUM_TYPENAME_ILLlib_addcols (
 	int factorok)
 {
 	int rval = 0;
-	int i;
+	int i, j;
+
+	if (!lp)
+	{
+		QSlog("EGLPNUM_TYPENAME_ILLlib_addcols called without an lp");
+		rval = 1;
+		ILL_CLEANUP;
+	}
+
+	/* reject a bad row index anywhere in the batch before the first column is
+	 * added */
+	for (i = 0; i < num; i++)
+	{
+		for (j = 0; j < cmatcnt[i]; j++)
+		{
+			if (cmatind[cmatbeg[i] + j] < 0 ||
+					cmatind[cmatbeg[i] + j] >= lp->O->nrows)
+			{
+				QSlog("EGLPNUM_TYPENAME_ILLlib_addcols called with bad row index: %d",
+										cmatind[cmatbeg[i] + j]);
+				rval = 1;
+				ILL_CLEANUP;
+			}
+		}
+	}
 
 	for (i = 0; i < num; i++)
 	{
